@@ -1,7 +1,7 @@
 (* C01 — all lemmas (re-exported), and non-vacuity examples for the
    implication-shaped theorems. *)
 From Yv Require Import Common.Base C01.Model C01.Spec.
-From Yv Require Export C01.ProofsSplit C01.ProofsPhrase C01.ProofsParam C01.ProofsWord C01.ProofsRead C01.ProofsCore.
+From Yv Require Export C01.ProofsSplit C01.ProofsPhrase C01.ProofsParam C01.ProofsWord C01.ProofsRead C01.ProofsCore C01.ProofsTrim.
 
 Definition sp (c : N) : attrchar := AC c SoftExpansion false false.
 Definition qu (c : N) : attrchar := AC c SoftExpansion true false.
@@ -92,3 +92,12 @@ Example ex_read :
   read_assign (ifs_new rust_is_ws [32; 58]%N) (map sp [49; 32; 50; 32; 58; 32; 51; 32]%N) 1
   = Some [[49%N]; [50; 32; 58; 32; 51]%N].
 Proof. reflexivity. Qed.
+
+(* trim: the four forms on a concrete value (a*b against "aXbYb") *)
+Example ex_trim :
+  let p := [PNormal 97; PNormal 42; PNormal 98]%N in
+  let v := [97; 88; 98; 89; 98]%N in
+  trim_value Prefix Shortest p v = [89; 98]%N /\ trim_value Prefix Longest p v = []
+  /\ trim_value Suffix Shortest p [88; 97; 98; 97; 98]%N = [88; 97; 98]%N
+  /\ trim_value Suffix Longest p [88; 97; 98; 97; 98]%N = [88%N].
+Proof. repeat split. Qed.
